@@ -11,9 +11,10 @@ In `Mode.checked` (debug assertions and overflow checks on) a panic is a `Fault`
 `partial_reduce32` (C18; the pinned tree faulted here: F3); all six external entry points on over-long
 contexts (C07); key generation and both signers on every failing generator (C12); re-serialisation range
 self-checks for every accepted private key (C10; pinned tree: F1); and public-key derivation does not read
-`t0` (C11; pinned tree: F2).  the verifier's and signer's lazy NTT pipelines on their whole input envelopes (C18).  The remaining paths (codec index
-arithmetic, sampler loops, the scalar post-processing of sign) are not proved (`C13_full`); they are exercised on every run in the checked build with hostile
-inputs, and every panic there is reported with the input.
+`t0` (C11; pinned tree: F2).  the verifier's and signer's lazy NTT pipelines on their whole input envelopes (C18).  The whole verification path (any public-key bytes, any signature bytes) is proved
+panic-free in `Props/C13b`.  The remaining paths (the scalar post-processing of sign and keygen after their NTT pipelines)
+are not proved; they are exercised on every run in the checked build with hostile inputs, and every panic there is
+reported with the input.
 -/
 namespace Fips204.Props.C13
 open Fips204 Fips204.Gen Fips204.Impl
